@@ -284,7 +284,7 @@ def rules_streams(tier):
 
 PROPS['C04'] = dict(
     family='line', tags={'M': 'rules'},
-    theorems=['C04_equal', 'C04_no_eol', 'C04_escaped', 'C04_glob', 'C04_cram_glob', 'C04_regex_whole_line', 'C04_regex_rule_partial', 'C04_regex_prepare_plain', 'C04_regex_quantifier_forms'],
+    theorems=['C04_equal', 'C04_no_eol', 'C04_escaped', 'C04_glob', 'C04_cram_glob', 'C04_regex_whole_line', 'C04_regex_rule_partial', 'C04_regex_prepare_plain', 'C04_regex_quantifier_forms', 'C04_regex_used_as_written'],
     streams=rules_streams,
     spec_kinds=['SPEC:C04'], corr_kinds=['DIFF:regex', 'DIFF:regex-prepare', 'DIFF:glob', 'DIFF:cramglob', 'DIFF:equal', 'DIFF:no-eol', 'DIFF:escaped'],
     case_format='M r <regex AST, prefix form>|<hex of the expression text>|<hex line content> <1 = final newline>|<matches>   M g <hex glob pattern>|<hex content> <nl>|<matches>|<Cram-style glob matches>   '
